@@ -207,6 +207,8 @@ type interpreter struct {
 	lockEvents      int
 	atomicOps       int
 	atomicHook      func(fr *frame, p *value, write bool)
+	atomicLoaded    map[*value]int // cell -> operation (call made by the harness) in which it was last read with an atomic load
+	callEpoch       int
 	known           map[int]bool
 	concPos         int
 	trace           []string
@@ -261,6 +263,7 @@ func (i *interpreter) resetPath(prefix []int) {
 	i.pcHasF = false
 	i.locks = nil
 	i.atomicHook = nil
+	i.atomicLoaded = nil
 	i.known = map[int]bool{}
 	i.concPos = 0
 	i.trace = nil
